@@ -676,7 +676,7 @@ var kC16Tx = register(&Kind[c16TxCase]{
 	Prop: "C16", Name: "tx",
 	Gen: func(t *rapid.T) c16TxCase {
 		c := c16TxCase{Ctor: rapid.IntRange(0, 2).Draw(t, "ctor")}
-		c.Spec = c16TxSpec{NIn: rapid.IntRange(1, 4).Draw(t, "nin"), NOut: rapid.IntRange(1, 4).Draw(t, "nout"),
+		c.Spec = c16TxSpec{NIn: rapid.IntRange(0, 4).Draw(t, "nin"), NOut: rapid.IntRange(0, 4).Draw(t, "nout"),
 			ScriptLen: rapid.IntRange(0, 80).Draw(t, "slen"), Salt: rapid.IntRange(0, 250).Draw(t, "salt"),
 			Token: rapid.IntRange(0, 3).Draw(t, "tok"), Amount: rapid.SampledFrom([]uint64{1, 252, 65535}).Draw(t, "amt")}
 		for i := rapid.IntRange(0, 6).Draw(t, "nops"); i > 0; i-- {
